@@ -19,6 +19,7 @@ type Clause struct {
 	Kind  string // requires, ensures, invariant, lemma
 	Label string
 	Props []string
+	Scope []string // `@in:name`: the clause applies only in top-level functions with a parameter of that name
 	Text  string
 	Expr  ast.Expr
 	File  string
@@ -37,6 +38,7 @@ type Contract struct {
 	HasAssigns bool
 	Inline, Trusted, NoPanic, Pure, Havoc bool
 	MustCall []*Clause // "mustcall" style clauses are expressed through ghosts; reserved
+	Forall   []GhostDecl
 	File    string
 	Line    int
 }
@@ -64,6 +66,7 @@ type ContractSet struct {
 	StateUnits []*StateUnitDecl
 	CtxScope   map[string][]string
 	Durables   []*Durable
+	Encaps     []*EncapDecl
 }
 
 // StateInv: a state-indexed data invariant of one table (FSM layer). An
@@ -178,7 +181,9 @@ func (cs *ContractSet) parseFile(pkgPath, file string) error {
 					rest = ""
 				}
 				for _, p := range strings.Split(strings.TrimPrefix(tok, "@"), ",") {
-					if p != "" {
+					if strings.HasPrefix(p, "in:") {
+						cl.Scope = append(cl.Scope, strings.TrimPrefix(p, "in:"))
+					} else if p != "" {
 						cl.Props = append(cl.Props, p)
 					}
 				}
@@ -213,6 +218,13 @@ func (cs *ContractSet) parseFile(pkgPath, file string) error {
 				return fmt.Errorf("%s:%d: requires outside func", file, lineNo)
 			}
 			cur.Req = append(cur.Req, mk("requires"))
+		case "typeinv":
+			// a representation invariant of the receiver/parameters: assumed inside the
+			// body like a precondition, NOT checked at call sites (recorded as an assumption)
+			if cur == nil {
+				return fmt.Errorf("%s:%d: typeinv outside func", file, lineNo)
+			}
+			cur.Req = append(cur.Req, mk("typeinv"))
 		case "ensures":
 			if cur == nil {
 				return fmt.Errorf("%s:%d: ensures outside func", file, lineNo)
@@ -254,6 +266,13 @@ func (cs *ContractSet) parseFile(pkgPath, file string) error {
 				cs.EventHavoc = map[string][]string{}
 			}
 			cs.EventHavoc[fs[0]] = append(cs.EventHavoc[fs[0]], fs[2:]...)
+		case "forall":
+			// forall <name> <type>: a universally quantified constant of the contract
+			fs := strings.Fields(rest)
+			if cur == nil || len(fs) != 2 {
+				return fmt.Errorf("%s:%d: forall <name> <type> (inside func)", file, lineNo)
+			}
+			cur.Forall = append(cur.Forall, GhostDecl{fs[0], fs[1]})
 		case "ctxscope":
 			// ctxscope <MessageType> <State...>: the message type is only ever applied to machines in these states
 			fs := strings.Fields(rest)
@@ -264,6 +283,20 @@ func (cs *ContractSet) parseFile(pkgPath, file string) error {
 				cs.CtxScope = map[string][]string{}
 			}
 			cs.CtxScope[fs[0]] = append(cs.CtxScope[fs[0]], fs[1:]...)
+		case "encapsulated":
+			// encapsulated [@props] Type.field writers f1 f2 ...
+			d := &EncapDecl{PkgPath: pkgPath, File: file, Line: lineNo}
+			fs := strings.Fields(rest)
+			for len(fs) > 0 && strings.HasPrefix(fs[0], "@") {
+				d.Props = append(d.Props, strings.Split(fs[0][1:], ",")...)
+				fs = fs[1:]
+			}
+			if len(fs) < 3 || fs[1] != "writers" || !strings.Contains(fs[0], ".") {
+				return fmt.Errorf("%s:%d: encapsulated [@props] Type.field writers f...", file, lineNo)
+			}
+			tf := strings.SplitN(fs[0], ".", 2)
+			d.TypeName, d.Field, d.Writers = tf[0], tf[1], fs[2:]
+			cs.Encaps = append(cs.Encaps, d)
 		case "stateunits":
 			// stateunits <table> <props...> : properties whose check runs the per-state units of that table
 			fs := strings.Fields(rest)
